@@ -76,6 +76,13 @@ def make_jobs(chk):
                 n += 1
                 jobs.append(SessionJob("h%d:%s:walk%d" % (n, name, k), script, stack, fl, sv, succ=succ,
                                        cmds=["step"] * k + ["rewind"] * 3 + ["step"] * 2 + ["rewind"] * (k - 1) + ["step"] * 2 + ["run"], cmp=CMP, hist=True))
+    # sessions that start finished (the empty script) or whose first script is empty: there is nothing to undo before the first step
+    for script, succ in ((b"", b""), (b"", b"\x51"), (b"", bytes([O["NOP"], O["1"]])), (b"\x51", b"")):
+        for st in ([], [b"\x01"], [b"\x00", b"\x07"]):
+            for sv in (("BASE", "WITNESS_V0", "TAPSCRIPT") if not succ else ("BASE",)):
+                for pat in (["rewind", "step", "steps"], ["rewind", "rewind", "rewind", "steps"], ["step", "rewind", "rewind", "step", "step", "rewind", "steps"], ["steps", "rewind", "steps"]):
+                    n += 1
+                    jobs.append(SessionJob("he%d:empty:%d:%d" % (n, len(script), len(succ)), script, st, [], sv, succ=succ, cmds=pat, cmp=CMP, hist=True))
     # every stack-manipulating opcode undone on stacks with repeated items (a permutation can leave depth and top item as they were while
     # the items below have moved), once and twice in a row
     stacks = [[b"\x05", b"\x07"] * 3, [b"\x05", b"\x05", b"\x07", b"\x05", b"\x09", b"\x05"], [b"\x01", b"\x02", b"\x03", b"\x04", b"\x05", b"\x06"], [b"\x07"] * 6]
